@@ -452,7 +452,7 @@ func init() {
 	vk.Register(&vk.Spec{
 		ID:          "C09",
 		Level:       "exploration",
-		Rule:        "PRNG configurations for the real binary (0..4 services with 1..3 tcp/udp listeners on distinct IPv4/IPv6/wildcard addresses and 1..5 keys, duplicate cipher+secret inside a service under another id, the same material in other services under other ids, 0..2 legacy ports incl. one key on two ports, mixtures of both formats); every (listener, key) pair of the configuration is probed; class = (listener type, owner kind, owned, cipher, duplicate-in-owner)",
+		Rule:        "PRNG configurations for the real binary (0..4 services with 1..3 tcp/udp listeners on distinct IPv4/IPv6/wildcard addresses and 1..5 keys, duplicate cipher+secret inside a service under another id, the same material in other services under other ids, 0..2 legacy ports incl. one key on two ports, mixtures of both formats); every (listener, key) pair of the configuration is probed (sequentially from one client host with a history pass, then 12 clients concurrently per TCP listener); class = (listener type, owner kind, owned, cipher, duplicate-in-owner)",
 		Assumptions: []string{"attribution is read from /metrics deltas of the running process (tcp_connections_closed, data_bytes, udp_nat_entries_added)", "negative TCP pairs send a FIN so that the 59 s probe timeout does not have to elapse"},
 		Batches:     func(t string) int { return map[string]int{"quick": 4, "thorough": 16}[t] },
 		Parallel:    func(t string) int { return 4 },
